@@ -11,13 +11,14 @@ Open Scope string_scope.
 
 Inductive akind :=
   | AUtf8 | ANUtf8 | ABool | ANBool | AInt | AFloat | ANInt | AStruct      (* arrays *)
+  | AUInt8 | AUInt32 | AInt8 | AFloat32 | ANUInt8 | ANFloat                (* more numeric arrays: narrow / unsigned / nullable *)
   | PInt | PFloat | PBool | PStr.                                          (* Python scalars *)
 Inductive kclass := KStr | KBool | KNum | KStruct.
 Definition kclass_of (a : akind) : kclass :=
   match a with
   | AUtf8 | ANUtf8 | PStr => KStr
   | ABool | ANBool | PBool => KBool
-  | AInt | AFloat | ANInt | PInt | PFloat => KNum
+  | AInt | AFloat | ANInt | PInt | PFloat | AUInt8 | AUInt32 | AInt8 | AFloat32 | ANUInt8 | ANFloat => KNum
   | AStruct => KStruct
   end.
 Definition is_k (k : kclass) (a : akind) : bool :=
